@@ -60,7 +60,7 @@ func reference(b *gcref.Bundle, progs []gcref.Prog) {
 		jobs = append(jobs, gcref.Job{Key: p.Key(), Env: []string{"GOMAXPROCS=1"}})
 		jobs = append(jobs, gcref.Job{Key: p.Key(), Env: []string{"GOMAXPROCS=8"}})
 	}
-	res := b.RunMany(jobs, 16, 30*time.Second)
+	res := b.RunMany(jobs, 4, 2*time.Minute)
 	for i, p := range progs {
 		a, c := res[2*i], res[2*i+1]
 		if a.Exit != 0 || c.Exit != 0 || a.TimedOut || c.TimedOut {
@@ -95,7 +95,7 @@ func buildBundle(progs []gcref.Prog) {
 		for _, p := range progs {
 			jobs = append(jobs, gcref.Job{Key: p.Key(), Env: []string{"GOMAXPROCS=4", "GORACE=halt_on_error=1 exitcode=66"}})
 		}
-		for i, r := range rb.RunMany(jobs, 8, 60*time.Second) {
+		for i, r := range rb.RunMany(jobs, 4, 2*time.Minute) {
 			if r.Exit != 0 {
 				harness.Fail("generated program is not race-free under gc -race (generator bug): exit %d\n%s\n%s", r.Exit, r.Stderr, progs[i].Files["main.go"])
 			}
